@@ -138,11 +138,8 @@ def convert(raw: list[dict[str, Any]], sc: dict[str, Any]) -> list[dict[str, Any
         elif ev == 'op.ready':
             out.append({'ev': 'ready', 't': t})
         elif ev == 'srv.req' and e.get('loop') == OP:
-            if e.get('plural') == PLURAL and e.get('kind') == 'list' and e.get('code') == 200 and not streaming.get(e.get('ns') or '*'):
-                out.append({'ev': 'wopen', 't': t, 'ns': e.get('ns') or '*'}); streaming[e.get('ns') or '*'] = True
-            elif e.get('plural') == PLURAL and e.get('kind') == 'watch' and e.get('code') == 200:
-                wns[e['watch']] = e.get('ns') or '*'
-                out.append({'ev': 'api', 't': t, 'what': 'watch things'})
+            if False:
+                pass
             elif e.get('plural') == PEER and e.get('kind') == 'patch' and e.get('code') == 200:
                 body = (e.get('pbody') or {}).get('status') or {}
                 if OP in body and body[OP] is None:
@@ -153,10 +150,13 @@ def convert(raw: list[dict[str, Any]], sc: dict[str, Any]) -> list[dict[str, Any
                     out.append({'ev': 'api', 't': t, 'what': 'peering'})
             else:
                 out.append({'ev': 'api', 't': t, 'what': f'{e.get("kind")} {e.get("plural") or e.get("path")}'})
-        elif ev == 'srv.watch.end' and e.get('res') == PLURAL and e.get('loop') == OP:
-            ns = wns.get(e.get('watch'), '*')
-            if streaming.get(ns):
-                out.append({'ev': 'wclose', 't': t, 'how': e.get('how'), 'ns': ns}); streaming[ns] = False
+        # a watcher of the handled resource lives from q.start to the close of its scheduler (the HTTP response itself may be
+        # released later, when the cancelled async generators are finalised: that is not activity)
+        elif ev == 'q.start' and e.get('res') == PLURAL:
+            wns[e['sched']] = e.get('ns') or '*'
+            out.append({'ev': 'wopen', 't': t, 'ns': e.get('ns') or '*'})
+        elif ev == 'sched.close' and e.get('sched') in wns:
+            out.append({'ev': 'wclose', 't': t, 'ns': wns.pop(e['sched'])})
         elif ev == 'd.start': out.append({'ev': 'dstart', 't': t})
         elif ev == 'd.exit': out.append({'ev': 'dexit', 't': t})
         elif ev == 'op.stop': out.append({'ev': 'stop', 't': t})
